@@ -166,7 +166,9 @@ def oracle(scn, trace):
         if pre_aborted(cf) or (last is not None and last.a.kind == "abort") or \
                 (last is not None and not last.recorded and last.first_true is not None):
             holds.add("ABORTED")
-        if delivered is not None and term[4] != delivered:
+        if delivered is None and cf.end["how"] == "outcome":
+            src = "outcome"
+        if (delivered is not None or src == "outcome") and term[4] != delivered:
             out.append(V("R3", "terminal stop_reason tag differs from the delivered stop reason", {"call": cid, "tag": term[4], "delivered": delivered, "entry": ent}))
         if term[4] not in holds:
             out.append(V("R3", f"terminal stop_reason {term[4]} does not hold", {"call": cid, "holds": sorted(holds), "terminal": term, "entry": ent}))
